@@ -15,6 +15,8 @@ import traceback
 from . import common
 
 VERIF = common.VERIF
+# experiments on changed copies of the library (tools/confirm_seeded.py) write their evidence / replays elsewhere
+OUT = os.environ.get("VERIF_OUT", VERIF)
 COQ = os.path.join(VERIF, "coq")
 FORBIDDEN = re.compile(
     r"\b(Admitted|admit|Axiom|Parameter|Conjecture|Abort All)\b|Unset Guard|bypass_check|"
@@ -356,8 +358,8 @@ def shrink(check: Check, case, subclaim, kind, budget=150):
 
 
 def write_replay(check: Check, case, failures, extra=None):
-    os.makedirs(os.path.join(VERIF, "replays"), exist_ok=True)
-    path = os.path.join(VERIF, "replays", f"{check.pid}-{check.seed}.json")
+    os.makedirs(os.path.join(OUT, "replays"), exist_ok=True)
+    path = os.path.join(OUT, "replays", f"{check.pid}-{check.seed}.json")
     doc = {"property": check.pid, "seed": check.seed, "tier": check.tier, "case": case,
            "failures": [f.to_json() for f in failures],
            "how_to_replay": f"cd /verif && ./check {check.pid} --replay {path}"}
@@ -532,8 +534,8 @@ def run_check(check: Check, replay=None):
         "wall_s": round(timer.elapsed(), 2),
         "violations": 1 if violation else 0,
     }
-    os.makedirs(os.path.join(VERIF, "evidence"), exist_ok=True)
-    with open(os.path.join(VERIF, "evidence", f"{check.pid}.json"), "w") as f:
+    os.makedirs(os.path.join(OUT, "evidence"), exist_ok=True)
+    with open(os.path.join(OUT, "evidence", f"{check.pid}.json"), "w") as f:
         json.dump(ev, f, indent=1)
     for l in lines:
         print(l)
